@@ -106,6 +106,9 @@ def check(repo, res, tier):
 
     # ----------------------------------------------------------------- S3 R-SIGN
     _hessian(repo, res, bl)
+    res.rule("R-TIMEGRID", "jtj / hessian integrate from the caller's start time over the caller's observation times (same trajectory as the cost)")
+    from .C06 import check_time_grid
+    check_time_grid(repo, res, rule="R-TIMEGRID", paths=("derivatives",))
 
 
 def _forwardforward(repo, res):
@@ -243,3 +246,68 @@ def _hessian(repo, res, bl):
                   "hessian integrates %s" % (ig[:2] + (ig[3], ig[4]) if ig else None,), node=f.node)
     if und:
         res.undecided("R-SIGN", f, "abstract-execution", "outside the modelled subset: %s" % und)
+        return
+    # asking for the additional output must not change the Hessian, and the J^T J handed back with it is the Gram matrix of the
+    # weighted sensitivities - with symbolic (non-unit) observation weights, so that a weight applied twice or not at all shows
+    Wt = SymArr.symbols("w", (n_obs, len(sn)))
+    for tp in (None, ["c", "a"]):
+        outs = {}
+        for full in (False, True):
+            me = loss_self(sn, tp, None, n_obs)
+            me.attrs["_weight"] = Wt.copy()
+            me.attrs["_t"] = [0.0, 1.0, 2.0]
+            me.attrs["_x0"] = SymArr.symbols("x0", (nS,))
+            me.attrs["_theta"] = Tok("theta")
+            ode = me.attrs["_ode"]
+            ode.attrs["_intName"] = None
+            ode.attrs["__open__"] = True
+            me.attrs["_lossObj"] = Obj("Kernel")
+            chain = ("_getTargetParamSensIndex", "_getTargetParamIndex", "sens_to_jtj", "_sensToJTJWithoutIndex", "sens_to_grad", "_sensToGradWithoutIndex")
+            summ, types = summaries(bl, repo, chain)
+            utils = repo.module(M.M_UTILS)
+            vff = utils.functions["vecToMatFF"]
+
+            def vec_to_mat_ff2(*a, _fn=vff, **kw):
+                ab_ = Abs({}, {}, dict(np_summaries()), None)
+                b = dict(zip(_fn.params, a))
+                b.update(kw)
+                kind_, v = ab_.run_function(_fn.node, b)
+                if kind_ == "raise":
+                    raise Raised(v)
+                return v
+            summ.update({"ode_utils.integrateFuncJac": lambda func, jac, x0, t0, t, **kw: (X.copy() if not kw.get("full_output") else (X.copy(), {})),
+                         "ode_utils.vecToMatFF": vec_to_mat_ff2,
+                         "Kernel.diff_loss": lambda k_, yhat, *a, **kw: D.copy(), "Kernel.residual": lambda k_, yhat, *a, **kw: Tok("resid"),
+                         "Loss._setParam": lambda me_, th: None, "set:Model.parameters": lambda o, v: None})
+            try:
+                kind, out = Abs({}, types, summ, me).run_function(f.node, {"theta": Tok("theta"), "full_output": full, "method": None})
+            except A.Undecided as e:
+                res.undecided("R-SIGN", f, "full-output-consistency", "outside the modelled subset: %s" % e)
+                return
+            outs[full] = (kind, out)
+        tag = "full-output-consistency(target_param=%s)" % (tp,)
+        (k0, h0), (k1, o1) = outs[False], outs[True]
+        problems = []
+        if k0 != "return" or k1 != "return" or not isinstance(h0, SymArr):
+            problems.append("hessian %s / %s" % (k0, k1))
+        else:
+            h1 = o1[0] if isinstance(o1, tuple) and o1 else None
+            info = o1[1] if isinstance(o1, tuple) and len(o1) > 1 and isinstance(o1[1], dict) else {}
+            if not isinstance(h1, SymArr) or L.first_diff(h1, h0) is not None:
+                problems.append("with full_output=True the Hessian differs from the one returned without it: %s" % (L.first_diff(h1, h0) if isinstance(h1, SymArr) else h1,))
+            p_idx = list(range(nP)) if tp is None else [PARAMS.index(p) for p in tp]
+            no = len(p_idx)
+            gram = SymArr.zeros((no, no))
+            for o in range(no):
+                for o2 in range(no):
+                    g = A.Rat.const(0)
+                    for t in range(n_obs):
+                        for s_ in range(len(sn)):
+                            w_ = Wt.at((t, s_))
+                            g = g + (w_ * X.at((t, nS + p_idx[o] * nS + st_idx[s_]))) * (w_ * X.at((t, nS + p_idx[o2] * nS + st_idx[s_])))
+                    gram[o, o2] = g
+            jt = info.get("JTJ")
+            if isinstance(jt, SymArr) and L.first_diff(jt, gram) is not None:
+                problems.append("the J^T J returned with the additional output is not the Gram matrix of the weighted sensitivities: %s" % L.first_diff(jt, gram))
+        res.check(not problems, "R-SIGN", f, tag, "the Hessian does not depend on full_output; the J^T J handed back is the Gram matrix of the weighted sensitivities (symbolic weights)",
+                  "; ".join(problems[:2]), node=f.node)
